@@ -239,6 +239,77 @@ def rule_d(ctx, fns):
             drops |= {m.i for m in f.walk() if m.k in ("BinaryOperator", "CXXOperatorCallExpr") and m.op == "=" and key(m.c[0], True).startswith("this.cached_")}
             w = cfg.paths_avoiding([(cfg.entry, -1)], lambda x: x.i in drops)
             ctx.ob("C16.d-invalidation", f.qn, "drops-unconditionally", bool(drops) and w is None, f.where(), "every path empties the cache array" if drops and w is None else "a path returns without emptying the cache array: stale integrals survive an input change")
+    # 2c. lazily computed values: a member M that a const function (re)computes when `M` fails a sentinel test is a cache of the
+    #     members its defining expression reads; whoever replaces one of those members resets M afterwards on every path
+    #     (directly, or through a member function that resets it on all its paths)
+    bodies = {}
+    for f in fns:
+        if f.body is not None:
+            bodies.setdefault(f.qn, f)
+
+    def fields_read(e, depth=0, seen=None):
+        seen = seen if seen is not None else set()
+        out = set()
+        for m in e.walk():
+            if m.k == "MemberExpr" and m.get("mk") == "field" and m.c and m.c[0].strip().k == "CXXThisExpr":
+                out.add(m.get("n"))
+            elif m.k == "CXXMemberCallExpr" and m.c and m.c[0].strip().k == "CXXThisExpr" and m.callee in bodies and m.callee not in seen and depth < 3:
+                seen.add(m.callee)
+                out |= fields_read(bodies[m.callee].body, depth + 1, seen)
+        return out
+
+    lazy = {}
+    for f in fns:
+        if f.body is None or not f.is_const:
+            continue
+        for g in f.walk():
+            if g.k != "IfStmt" or len(g.c) < 2:
+                continue
+            cf = {m.get("n") for m in g.c[0].walk() if m.k == "MemberExpr" and m.get("mk") == "field" and m.c and m.c[0].strip().k == "CXXThisExpr"}
+            if len(cf) != 1:
+                continue
+            mname = next(iter(cf))
+            for a in g.c[1].walk():
+                if a.k == "BinaryOperator" and a.op == "=" and key(a.c[0].strip()) == "this." + mname:
+                    lazy.setdefault(mname, set()).update(fields_read(a.c[1]) - {mname})
+    ctx.stats["lazily_computed_members"] = {k: sorted(v) for k, v in lazy.items()}
+    for mname, inputs in sorted(lazy.items()):
+        if not inputs:
+            continue
+        # member functions that reset M on every path
+        resetters = set()
+        changed = True
+        while changed:
+            changed = False
+            for f in fns:
+                if f.body is None or not f.cfg_raw or f.is_const or f.qn in resetters:
+                    continue
+                ids = {m.i for m in f.walk() if m.k == "BinaryOperator" and m.op == "=" and key(m.c[0].strip()) == "this." + mname}
+                ids |= {c.i for c in f.calls() if c.callee in resetters and c.call_object() is not None and c.call_object().k == "CXXThisExpr"}
+                if ids and CFG(f).paths_avoiding([(CFG(f).entry, -1)], lambda x: x.i in ids) is None:
+                    resetters.add(f.qn)
+                    changed = True
+        done = set()
+        for f in fns:
+            if f.body is None or not f.cfg_raw or f.is_const or f.is_ctor or f.d.get("dtor") or (f.file, f.line) in done:
+                continue
+            cfg = CFG(f)
+            wnodes = []
+            for m in f.walk():
+                if m.i not in cfg.pos:
+                    continue
+                whole = (m.k in ("BinaryOperator", "CXXOperatorCallExpr") and m.op == "=") or (m.k == "CXXMemberCallExpr" and (m.callee or "").split("::")[-1] in ("reset", "swap"))
+                if whole and any(root_of_lvalue(e).startswith("this.") and root_of_lvalue(e)[5:] in inputs for e in written_lvalues(m)):
+                    wnodes.append(m)
+            if not wnodes:
+                continue
+            done.add((f.file, f.line))
+            ids = {m.i for m in f.walk() if m.k == "BinaryOperator" and m.op == "=" and key(m.c[0].strip()) == "this." + mname}
+            ids |= {c.i for c in f.calls() if c.callee in resetters and c.call_object() is not None and c.call_object().k == "CXXThisExpr"}
+            wit = cfg.must_pass_before_exit(wnodes, lambda x: x.i in ids)
+            hit = sorted({root_of_lvalue(e)[5:] for m in wnodes for e in written_lvalues(m) if root_of_lvalue(e).startswith("this.")} & inputs)
+            ctx.ob("C16.d-invalidation", f.qn + "(" + f.sig[:40] + ")", "lazy:%s-after-writing:%s" % (mname, ",".join(hit)), wit is None, wnodes[0].where(), "every path that replaces %s also resets the lazily computed %s" % (hit, mname) if wit is None else "replaces %s, which the lazily computed %s is derived from, but a normal path does not reset %s: the value computed for the previous setting is used" % (hit, mname, mname))
+            n += 1
     # 3. process_data tests the flag
     for f in fns:
         if f.qn == "stir::ScatterSimulation::process_data" and f.cfg_raw:
